@@ -544,3 +544,45 @@ def priority_of(tree, term_priority=None):
     if tree[0] == 't' and term_priority:
         return term_priority.get(tree[1], 0)
     return 0
+
+
+def is_plain(bnf):
+    """No shaping feature in play: every rule is a visible node, every token kept, no alias, no placeholder."""
+    for r in bnf.rules.values():
+        if r.inline or r.expand1 or r.helper:
+            return False
+        for a in r.alts:
+            if a.alias or any(s[0] == 'none' or (s[0] == 't' and not s[2]) for s in a.syms):
+                return False
+    return True
+
+
+def valid_tree_ends(bnf, tree, name, kinds, i):
+    """For a plain grammar: end positions j such that `tree` (shape tuples) is a derivation tree of non-terminal `name` over
+    kinds[i:j]. Direct check of one tree - used for cyclic grammars, whose derivation sets are infinite."""
+    if not isinstance(tree, tuple) or not tree or tree[0] != name or hasattr(tree, '_is_tok'):
+        return set()
+    kids = tree[1:]
+    out = set()
+    for a in bnf.rules[name].alts:
+        if len(a.syms) != len(kids):
+            continue
+        cur = {i}
+        for s, c in zip(a.syms, kids):
+            nxt = set()
+            for p in cur:
+                if s[0] == 't':
+                    if type(c).__name__ == '_tok' and c[0] == s[1] and p < len(kinds) and kinds[p] == s[1]:
+                        nxt.add(p + 1)
+                else:
+                    if type(c).__name__ != '_tok' and c is not None:
+                        nxt |= valid_tree_ends(bnf, c, s[1], kinds, p)
+            cur = nxt
+            if not cur:
+                break
+        out |= cur
+    return out
+
+
+def is_derivation_tree(bnf, tree, kinds, start=None):
+    return len(kinds) in valid_tree_ends(bnf, tree, start or bnf.start, kinds, 0)
